@@ -3,7 +3,7 @@ EXTENDS LineProtocol, Json, SequencesExt
 \* Export for replay (Mode B): one JSON object per finished line: the class sequence, the precision,
 \* the design outcome and the outcomes of the as-implemented automata that differ from it.
 OutJ(a) == [kind |-> IF a.st = "Accept" THEN "Accept" ELSE "Reject", why |-> a.why, mst |-> a.mst, tags |-> a.tags,
-            fields |-> a.fields, ts |-> a.ts, tsvia |-> a.tsvia, amb |-> SetToSeq(a.amb)]
+            fields |-> a.fields, ts |-> a.ts, tsvia |-> a.tsvia, amb |-> SetToSeq(a.amb), used |-> SetToSeq(a.used)]
 Case == LET DS == SetToSeq({X \in DevSets : Out(m[X]) # Out(d)})
         IN [line |-> line, prec |-> prec, exp |-> OutJ(d),
             imp |-> [j \in 1..Len(DS) |-> [dev |-> SetToSeq(DS[j]), out |-> OutJ(m[DS[j]])]]]
@@ -11,8 +11,10 @@ Case == LET DS == SetToSeq({X \in DevSets : Out(m[X]) # Out(d)})
 \* long valid lines (several tags and fields, escapes, strings) are reached; parameterised by the state so
 \* that TLC does not cache the random choice
 KeepsValid(c) == Step(d, Append(line, c), c, "", Len(line) + 1, Dev).st # "Reject"
-SimOfferP(h) == LET good == {c \in Offer : KeepsValid(c)}
-                IN IF d.st = "Reject" \/ good = {} \/ RandomElement(1..4) = 1 THEN Offer ELSE good
+SimOfferP(h) == LET good == {c \in BaseOffer : KeepsValid(c)}
+                IN IF d.st = "Reject" \/ good = {} \/ RandomElement(1..4) = 1 THEN BaseOffer ELSE good
 SimOffer == SimOfferP(line)
+SimEolP(h) == d.st \in {"FieldValEnd", "Timestamp", "TimestampEnd", "Reject"} \/ RandomElement(1..12) = 1
+SimEol == SimEolP(line)
 Export == done => PrintT(<<"TRACE", ToJson(Case)>>)
 =============================================================================
